@@ -1,5 +1,5 @@
 "C07 — expand fails only with its two parse errors, never with an internal error"
-import copy
+import copy, os
 from hypothesis import strategies as st
 from vlib import core, alphabets as A, cfgs
 from vlib.core import guard
@@ -157,3 +157,31 @@ def run(ctx):
     ctx.run_parallel('shard_prefixes')
     ctx.run_parallel('shard_mutants', extra=(ctx.pick(1500, 30000),))
     ctx.run_parallel('shard_hypothesis', extra=(ctx.pick(200, 4000),))
+    if ctx.thorough or os.environ.get('VERIF_FUZZ'):
+        ctx.run_atheris('expand', ctx.pick(1500, 30000))
+
+
+# coverage-guided layer (thorough tier): byte 0 selects one of the 13 fixed configurations, the rest is the abbreviation
+_FZ_CFGS = [c for _, c in cfgs.MARKUP_FIXED] + [c for _, c in cfgs.CSS_FIXED]
+
+
+def _fz_decode(data):
+    if not data:
+        return None
+    from vlib.fuzz import text_of
+    k = data[0] % len(_FZ_CFGS)
+    s = text_of(data[1:])
+    return {'abbr': cfgs.bound_repeats(s), 'cfg': _FZ_CFGS[k]}
+
+
+def _fz_seeds():
+    ts = A.test_seeds()
+    nm = len(cfgs.MARKUP_FIXED)
+    for i, s in enumerate(A.MARKUP_SEEDS + ts['markup']):
+        yield bytes([i % nm]) + s.encode('utf-8')
+    for i, s in enumerate(A.CSS_SEEDS + ts['css']):
+        yield bytes([nm + i % len(cfgs.CSS_FIXED)]) + s.encode('utf-8')
+
+
+FUZZ = {'expand': {'decode': _fz_decode, 'seeds': _fz_seeds, 'max_len': 48,
+                   'dict': ['${1:', '${', '$#', '$@-', '$@^', '*3', '*', 'lorem', '[a="', "='", '{$#}', '!important', '--', '#f', 'ul>', '.c', '(', ')^', '/']}}
